@@ -23,6 +23,7 @@ Every family is compiled with the helper / inner types declared before AND after
 """
 import itertools
 import os
+import re
 import subprocess
 
 from vt import typelib
@@ -302,6 +303,14 @@ def gcc_numbers(cases, wd, tag):
     return got
 
 
+def _clean(err):
+    """compiler diagnostics without process ids, times and scratch paths (stable replay files)"""
+    err = re.sub(r'\(g-ir-compiler:\d+\)', '(g-ir-compiler)', err)
+    err = re.sub(r'\d\d:\d\d:\d\d\.\d+', '', err)
+    err = re.sub(r'/\S*/(Test-1\.0\.gir)', r'\1', err)
+    return '\n'.join(l for l in err.splitlines() if l.strip() and l.strip() != '**')
+
+
 def compile_doc(b, cases, order, wd):
     """-> (rc, stderr, {entry name: decoded entry} or None, xml)"""
     hfirst, perm = order
@@ -312,6 +321,7 @@ def compile_doc(b, cases, order, wd):
     groups = ([h] + groups) if hfirst else (groups + [h])
     xml = M.gir_doc(groups).xml()
     rc, err, data = tools.compile_gir(b, xml, wd)
+    err = _clean(err)
     if rc != 0 or data is None:
         return rc, err, None, xml
     model, fprobs = typelib.decode(data)
